@@ -124,6 +124,29 @@ fn real(text: &str, now: Option<NaiveDate>, range: (Option<u32>, Option<u32>)) -
     Ok(out)
 }
 
+/// a holding that needs a chain of three rates (EUR -> CHF -> USD -> T, one chain only, so that C09 has nothing to choose), whose
+/// middle rate changes after the latest price of both end commodities: every report date uses the rates as of THAT date (seed C10-j).
+/// Expected values are written out by hand.
+fn indirect(bad: &mut Vec<(String, String)>, evaluated: &mut u64) {
+    let text = "2024/01/03 p1\n    X    1 EUR @ 2 CHF\n    Y\n\n2024/01/04 p2\n    X    1 CHF @ 5 USD\n    Y\n\n2024/01/06 p3\n    X    1 USD @ 3 T\n    Y\n\n\
+2024/01/12 hold\n    H    10 EUR\n    Equity    -10 EUR\n\n2024/01/15 p4\n    X    1 CHF @ 7 USD\n    Y\n\n2024/01/17 hold more\n    H    1 EUR\n    Equity    -1 EUR\n\n";
+    // (report date or historical, expected value of account H in T; None = a rate is missing)
+    // --historical is asked for the transactions from the 12th on (the pricing transactions before that hold commodities that have no rate yet on their own dates)
+    let cases: [(Option<u32>, Option<&str>); 5] = [(Some(5), None), (Some(10), Some("330")), (Some(14), Some("330")), (Some(16), Some("462")), (None, Some("342"))];
+    for (now, want) in cases {
+        *evaluated += 1;
+        let got = real(text, now.map(day), if now.is_none() { (Some(12), None) } else { (None, None) });
+        let desc = format!("{}query: balance -X T {}", text, match now { Some(x) => format!("--now 2024-01-{:02}", x), None => "--historical --start 2024-01-12".into() });
+        let problem = match (want, &got) {
+            (None, Err(e)) if !e.starts_with("ledger rejected") => None,
+            (None, Ok(g)) => Some(format!("no rate for USD in T exists on that date but the query succeeded with {:?}", g)),
+            (_, Err(e)) => Some(format!("every needed rate is available on the date but the query failed: {}", e)),
+            (Some(w), Ok(g)) => if g.get("H") == Some(&d(w)) { None } else { Some(format!("account H is reported as {:?} T; 11 EUR through EUR -> CHF -> USD -> T at the rates of the date is {} T", g.get("H"), w)) },
+        };
+        if let Some(p) = problem { if bad.len() < 10 { bad.push((desc, p)); } }
+    }
+}
+
 pub fn run(_args: &[String]) -> i32 {
     let mut bad: Vec<(String, String)> = Vec::new();
     let mut evaluated = 0u64;
@@ -168,6 +191,7 @@ pub fn run(_args: &[String]) -> i32 {
             }
         }
     }
+    indirect(&mut bad, &mut evaluated);
     for (s, why) in bad.iter().take(10) {
         println!("{}", serde_json::json!({"input": s, "contradiction": why}));
     }
